@@ -55,6 +55,11 @@ CHECKS = {
          "__getstate__) and decoration histories are choice variables enumerated exhaustively by the solver; classes are synthesised "
          "natively and instances of C and slotted(C) compared for construction, ==, ordering, hash, repr, frozen-ness, copy, pickle, "
          "weakref, __slots__ and __dict__ absence.", "4/C19", "CrossHair/z3 exhaustive enumeration of class definitions and decoration histories (choice variables), native replay"),
+ "C09": ("E3 choice-symbolic (weakest form): adjacency bits, edge kinds, root container and naming variants of a class graph over three "
+         "synthesised dataclasses are choice variables enumerated exhaustively by the solver; graph.itertypes/static_order run natively "
+         "and the node sequence is checked against the statement's invariants (termination, no duplicates, root last, members before "
+         "containers, every forward reference flagged cyclic and denoting exactly the revisited member, input-form invariance).",
+         "4/C09", "CrossHair/z3 exhaustive enumeration of class-graph topologies (choice variables), invariant oracle, native replay"),
 }
 NA = {
  "C17": "flat catalogue of CPython type objects compared with CPython's own issubclass/typing internals: neither side can be encoded for a solver and there is no value, shape, state or history to make symbolic (DESIGN.md section 7)",
